@@ -452,6 +452,23 @@ example : storeZ.Lawful ∧ storeZ.compress [1] ≠ [1] ∧
       (applyPatchBytes storeZ (some 1024) [1, 2, 3, 4, 5, 6, 7, 8, 9] b).toOption) = some [1, 2, 3, 4, 5, 0, 7, 8, 9] := by
   refine ⟨storeZ_lawful, by decide, ?_, ?_, ?_, ?_⟩ <;> decide +kernel
 
+/-- when `build_patch_internal` can refuse: never, unless a compressed block (or control + diff
+together) or the new content exceeds the header's 1 GB limit. With `simple_total` / `chunked_total`:
+the byte-level builders are total on everything within the stated limits. -/
+theorem build_bytes_total (z : Zlib) (p : Patch)
+    (h1 : (z.compress (encodeCtl p.ctl)).length + (z.compress p.diff).length ≤ maxSize) (h2 : p.outSize ≤ maxSize) :
+    ∃ bytes, serialize z p = .ok bytes := by
+  unfold serialize
+  have hv : (⟨((z.compress (encodeCtl p.ctl)).length : Int), ((z.compress p.diff).length : Int), (p.outSize : Int)⟩ : Header).valid = true := by
+    unfold Header.valid
+    simp only [Bool.not_eq_true', Bool.or_eq_false_iff, decide_eq_false_iff_not]
+    omega
+  simp only [hv, Bool.not_true, Bool.false_eq_true, if_false]
+  exact ⟨_, rfl⟩
+
+example : ((storeZ.compress (encodeCtl [⟨0, 3, 0⟩])).length + (storeZ.compress []).length ≤ maxSize) ∧ (3 ≤ maxSize) :=
+  ⟨by decide, by decide⟩
+
 /-- length clause on the WHOLE patch bytes: for ANY zlib (no law needed), any bytes, either entry
 point: an `Ok` result has exactly the number of bytes the 32-byte header states. -/
 theorem apply_patch_bytes_length_or_error (z : Zlib) (buf : Option Nat) (old p out : Bytes)
